@@ -138,6 +138,81 @@ PROPS = {
     },
 }
 
+PROPS.update({
+    "C09": {
+        "clause": "quotient returns the connected-components map of the pending unifications; on failure the diagram "
+                  "is exactly as before (atomic); on success every node reference (edge sources/targets, both "
+                  "interfaces) is replaced by its image, edges/labels/order untouched, every node keeps its label "
+                  "class, pending unifications cleared; result well-formed",
+        "entries": ["lax::hypergraph::Hypergraph::<O, A>::quotient", "lax::open_hypergraph::OpenHypergraph::<O, A>::quotient",
+                    "lax::hypergraph::Hypergraph::<O, A>::coequalizer"],
+        "anchors": ["lax::hypergraph::Hypergraph::<O, A>::quotient", "lax::open_hypergraph::OpenHypergraph::<O, A>::quotient",
+                    "lax::hypergraph::Hypergraph::<O, A>::coequalizer", "finite_function::arrow::coequalizer_universal"],
+        "rules": ["DELEG"], "level": "proof",
+    },
+    "C10": {
+        "clause": "in-place tensor/append/coproduct produce exactly the pure results (same term-level spec); lax compose "
+                  "is defined iff the boundary types match and lax_compose iff the arities match, with the stated "
+                  "wiring; to_strict/from_strict/identity/spider/twist/dagger/singleton are well-formed and typed as "
+                  "their strict counterparts",
+        "entries": ["lax::mut_category::", "lax::category::", "lax::open_hypergraph::OpenHypergraph::<O, A>::to_strict",
+                    "lax::open_hypergraph::OpenHypergraph::<O, A>::to_open_hypergraph",
+                    "lax::open_hypergraph::OpenHypergraph::<O, A>::from_strict", "lax::hypergraph::Hypergraph::<O, A>::from_strict",
+                    "lax::hypergraph::Hypergraph::<O, A>::to_hypergraph", "lax::open_hypergraph::OpenHypergraph::<O, A>::tensor",
+                    "lax::open_hypergraph::OpenHypergraph::<O, A>::identity", "lax::open_hypergraph::OpenHypergraph::<O, A>::spider",
+                    "lax::open_hypergraph::OpenHypergraph::<O, A>::singleton", "lax::hypergraph::Hypergraph::<O, A>::coproduct"],
+        "anchors": ["lax_compose", "coproduct_assign", "tensor_assign", "::append", "lax::hypergraph::make_hypergraph",
+                    "lax::open_hypergraph::OpenHypergraph::<O, A>::to_strict"],
+        "rules": ["DELEG"], "level": "proof",
+    },
+    "C11": {
+        "clause": "builder calls return fresh identifiers and touch only the fields they name (term-level post-state "
+                  "specs with frame conditions); deletions reject out-of-range identifiers before any effect, keep "
+                  "edges/adjacency paired, renumber every NodeId-bearing place through the reported map (structural "
+                  "rules); serde derives and documented field names (serde configuration)",
+        "entries": ["lax::hypergraph::Hypergraph::<O, A>::new_", "lax::hypergraph::Hypergraph::<O, A>::add_edge_",
+                    "lax::hypergraph::Hypergraph::<O, A>::unify", "lax::hypergraph::Hypergraph::<O, A>::delete_",
+                    "lax::hypergraph::Hypergraph::<O, A>::with_", "lax::hypergraph::Hypergraph::<O, A>::map_",
+                    "lax::hypergraph::Hypergraph::<O, A>::empty", "lax::hypergraph::Hypergraph::<O, A>::discrete",
+                    "lax::open_hypergraph::OpenHypergraph::<O, A>::new_", "lax::open_hypergraph::OpenHypergraph::<O, A>::add_edge_",
+                    "lax::open_hypergraph::OpenHypergraph::<O, A>::unify", "lax::open_hypergraph::OpenHypergraph::<O, A>::delete_",
+                    "lax::open_hypergraph::OpenHypergraph::<O, A>::with_", "lax::open_hypergraph::OpenHypergraph::<O, A>::map_",
+                    "lax::open_hypergraph::OpenHypergraph::<O, A>::empty"],
+        "anchors": ["lax::hypergraph::Hypergraph::<O, A>::new_node", "lax::hypergraph::Hypergraph::<O, A>::new_edge",
+                    "lax::hypergraph::Hypergraph::<O, A>::delete_nodes_witness", "lax::hypergraph::Hypergraph::<O, A>::delete_edges",
+                    "lax::open_hypergraph::OpenHypergraph::<O, A>::delete_nodes"],
+        "rules": ["DELETE", "SERDE", "DELEG"], "level": "proof",
+    },
+    "C13": {
+        "clause": "NARROW: both native lax functor entry points return None for diagrams with pending unifications; "
+                  "failures inside are propagated as None (no panic path); the witness is a well-formed segmented array "
+                  "with one segment per input node, over the result's nodes",
+        "entries": ["lax::functor::traits::"],
+        "anchors": ["lax::functor::traits::try_define_map_arrow", "lax::functor::traits::map_arrow_witness",
+                    "lax::functor::traits::spider_map_arrow", "lax::functor::traits::map_half_spider"],
+        "rules": [], "level": "proof",
+    },
+    "C19": {
+        "clause": "NARROW: the Var/operator builders never panic on a well-formed builder state (every index into the "
+                  "shared state is in range), leave it well-formed, and build() returns Ok or hands the state back; "
+                  "Forget/ForgetMonogamous::map_operation return well-formed diagrams for every label mix (the spider "
+                  "branch is reached only with uniform labels); no RefCell borrow overlaps another",
+        "entries": ["lax::var::"],
+        "anchors": ["lax::var::var::Var::<O, A>::new", "lax::var::var::build", "lax::var::operators::operation",
+                    "lax::var::forget::forget", "lax::var::forget::all_elements_equal"],
+        "rules": ["REFCELL", "FORGET"], "level": "proof",
+    },
+    "C20": {
+        "clause": "NARROW: the strict algorithms are written against the array interface only — every public item of the "
+                  "generic modules is generic in K (audit over the exported program) and type-checks at a second, "
+                  "foreign ArrayKind (compile-pass witness); external crates cannot bypass the checked constructors of "
+                  "the non_exhaustive types (compile-fail witness)",
+        "entries": [],
+        "anchors": ["array::traits::Array::to_range"],
+        "rules": ["GENERIC", "NONEXH"], "level": "other",
+    },
+})
+
 NOT_APPLICABLE = {
     "C03": "the laws equate, up to isomorphism, results of different computation paths; no clause of them is "
            "visible in code shape beyond the per-operation typing already decided under C01/C02/C04/C05",
